@@ -180,18 +180,45 @@ def check(ctx: Ctx) -> None:
         hs = [h for n in repo.own_nodes(f_lrecv) if isinstance(n, ast.Try) for h in n.handlers if h.type is not None and unparse(h.type) == "Exception"]
         ob.require(len(hs) == 1, "callback failure handler (except Exception) not found in _local_receive")
         h = hs[0]
-        calls = [c for s in h.body for c in ast.walk(s) if isinstance(c, ast.Call)]
-        txt = [c for c in calls if callee_attr(c) in ("_geterrortext", "geterrortext") and c.args and unparse(c.args[0]) == h.name]
-        tv = unparse(repo.parent(txt[0]).targets[0]) if txt and isinstance(repo.parent(txt[0]), ast.Assign) else None
+        # on value terms: on every path where the data callback raises, the text made from *that* exception is serialised and sent
+        # as CHANNEL_CLOSE_ERROR on the same id, and the local side is closed with a RemoteError of the same text
+        from ..terms import evaluator as _evb
         consts = repo.cls("Message").consts
-        snd = [c for c in calls if callee_attr(c) == "_send" and repo.fold_in(c.args[0], f_lrecv) == consts["CHANNEL_CLOSE_ERROR"]]
-        lc = [c for c in calls if callee_attr(c) == "_local_close"]
         idp = f_lrecv.params()[1]
-        ok_send = len(snd) == 1 and unparse(snd[0].args[1]) == idp and isinstance(snd[0].args[2], ast.Call) and callee_attr(snd[0].args[2]) == "dumps_internal" \
-            and unparse(snd[0].args[2].args[0]) == tv
-        ok_local = len(lc) == 1 and unparse(lc[0].args[0]) == idp and len(lc[0].args) >= 2 and tv is not None and tv in unparse(lc[0].args[1])
-        ob.site(f_lrecv, h, "callback failure: peer gets CHANNEL_CLOSE_ERROR(text), local side closes with the error", text=tv, send=ok_send, local=ok_local)
-        if not txt:
+        IDT = ("sym", idp)
+        cb_call = lambda c: isinstance(c.func, ast.Name) and c.func.id == "callback"  # noqa: E731
+        evb = _evb(repo, f_lrecv, Oracle(repo, f_lrecv, precise=True, call_raises=lambda c, f: [("Exception", True)] if cb_call(c) else None))
+        n_fail = 0
+        txt_ok = ok_send = ok_local = True
+        tv = None
+        for (pth, st_) in evb.run(limit=20000):
+            rz = [e for e in st_.events if e.kind == "call" and e.raised and isinstance(e.node, ast.Call) and cb_call(e.node)]
+            if not rz:
+                continue
+            n_fail += 1
+            after = st_.events[st_.events.index(rz[-1]):]
+            texts = [e for e in after if e.kind == "call" and str(e.callee or e.attr or "").split(".")[-1] in ("_geterrortext", "geterrortext") and e.args and e.args[0][0] == "exc"]
+            if not texts:
+                txt_ok = ok_send = ok_local = False
+                continue
+            T = texts[-1].result
+            tv = show(T)
+            dumps_ = [e for e in after if e.kind == "call" and str(e.callee or "").split(".")[-1] == "dumps_internal" and e.args[:1] == (T,)]
+            sends = [e for e in after if e.kind == "call" and (e.attr == "_send" or str(e.callee or "").endswith("._send")) and e.args and e.args[0] == ("const", consts["CHANNEL_CLOSE_ERROR"])]
+            if not (len(sends) == 1 and len(sends[0].args) >= 3 and sends[0].args[1] == IDT and any(sends[0].args[2] == d.result for d in dumps_)):
+                ok_send = False
+            lcs = [e for e in after if e.kind == "call" and (e.attr == "_local_close" or str(e.callee or "").endswith("._local_close"))]
+            good = False
+            for e in lcs:
+                vals = list(e.args[1:]) + list(e.kwargs.values())
+                if e.args[:1] == (IDT,) and any(v[0] == "fresh" and str(v[2]).endswith("RemoteError") for v in vals):
+                    mk = [c_ for c_ in after if c_.kind == "call" and c_.result in vals and c_.args[:1] == (T,)]
+                    good = good or bool(mk)
+            if not good:
+                ok_local = False
+        ob.require(n_fail >= 1, "_local_receive: no path on which the data callback raises")
+        ob.site(f_lrecv, h, "callback failure: peer gets CHANNEL_CLOSE_ERROR(text), local side closes with the error", text=tv, send=ok_send, local=ok_local, failing_paths=n_fail)
+        if not txt_ok:
             ob.violation(f_lrecv, h, "the callback failure is not turned into an error text (type, message, traceback)")
         if not ok_send:
             ob.violation(f_lrecv, h, "a failing callback does not tell the peer (CHANNEL_CLOSE_ERROR with the error text on the same channel id)")
@@ -238,7 +265,8 @@ def check(ctx: Ctx) -> None:
         fmt = [c for c in repo.calls_in(fg) if isinstance(c.func, ast.Name) and c.func.id == "format_exception"]
         dflt = [unparse(d) for d in fg.node.args.defaults]
         ob.site(fg, fmt[0] if fmt else fg.node, "error text = traceback.format_exception(type, exc, tb)", defaults=dflt)
-        if not fmt or "traceback.format_exception" not in dflt or [unparse(a) for a in fmt[0].args] != ["type(exc)", "exc", "exc.__traceback__"]:
+        from ..util import xtext as _xt7
+        if not fmt or "traceback.format_exception" not in dflt or [_xt7(repo, fg, a) for a in fmt[0].args] != ["type(exc)", "exc", "exc.__traceback__"]:
             ob.violation(fg, fg.node, "geterrortext no longer formats exception type, message and traceback")
         # Channel.close(error): CLOSE_ERROR iff error is not None
         fcl = repo.func(f"{GB}.Channel.close")
